@@ -7,6 +7,14 @@ TRUSTED_BASE = [
 ]
 
 PROPS = {
+    "C09": dict(
+        assumptions=["Go strings are compared as byte strings, the model works on List Char: identical on valid UTF-8 because every character the code searches for is ASCII",
+                     "paths without newline for the trailing wildcard (Go's `.` does not match newline; the spec says so explicitly)",
+                     "IPv4 only in the model; IPv6 and malformed arguments are exercised on the implementation only (model answers none)"],
+        trusted=["modelled, not verified: Go regexp on the fragment {literal, .*, [^/]+, ([^/]+)} that the rewriting produces from well-formed patterns (Lean backtracking matcher rmatch/rcapture), regexp.ReplaceAllString for the three placeholder expressions, net.ParseIP/ParseCIDR/Contains for dotted quads",
+                 "level partial: the theorems relate the Lean mirror of the rewriting + fragment matcher to the segment semantics; that the mirror equals Go's regexp engine on this fragment is checked by the bounded-exhaustive correspondence only"],
+        technique="Lean 4 theorems (mirror of the pattern rewriting and a regex-fragment matcher = segment semantics; CIDR arithmetic) + bounded-exhaustive correspondence with util.KeyMatch*/KeyGet*/IPMatch",
+    ),
     "C01": dict(
         assumptions=["matchers reach Lean as ASTs (govaluate's parser is not modelled); the harness prints each AST fully parenthesised as the matcher text casbin parses",
                      "float64 request values and literals are integers in the model (the harness only uses integers)",
@@ -28,6 +36,7 @@ PROPS = {
 }
 
 LEVEL_TEXT = {
+    "C09": "Partial. Proved in Lean for every well-formed pattern of the segment grammar (any number of segments, any literal text free of regex metacharacters) and every path: the mirror of keyMatch2/3/5 (pattern rewriting + matcher for the regex fragment it produces) accepts exactly the paths of the segment semantics, keyMatch4 additionally requires equal values for repeated names, keyGet2/3 return the captured segment exactly when the match succeeds, keyMatch/keyGet are the prefix-before-first-star semantics, ipMatch on dotted quads is CIDR block arithmetic. Go's regexp/net are modelled (not verified): the mirror is tied to them by replaying all patterns up to 2 (quick) / 4 (thorough) segments x all paths up to 4/5 segments, raw patterns at the boundary of the fragment, and random IPv4 inputs through the real functions.",
     "C01": "Proved in Lean for every model definition, policy, grouping set, request, built-in function table and eval table: whenever the PERM reference semantics (specEnforce: matcher against every rule in stored order, g() = reachability within depth 10 through the listed grouping rules by direct recursion, effects combined by the four sentences of C02) specifies a decision, the mirror of enforce() returns it (enforce_eq_perm); the role manager's BFS is exactly reachability within the depth bound (hasLink_iff_reach), links built from rules are the rules' links (applyRules_links), EnforceWithMatcher(own matcher) = Enforce (withMatcher_own), error-free answers only depend on the rules up to the deciding one (loopFromE_some_prefix), the g() memo key is injective on NUL-free arguments. Tie: 14 model families x all policies/groupings up to 2 (quick) / 3 (thorough) rules x all requests through the real EnforceEx/Enforce/BatchEnforce/EnforceWithMatcher, plus seeded random matchers, graphs with cycles and chains around the depth limit.",
     "C06": "Proved in Lean by refinement: from a coherent store, every management call whose arguments satisfy WF06 yields the list and boolean of the list-of-unique-rules specification and keeps list and index coherent (refine_step), hence every history does (refine_hist); corollaries: present iff listed, never listed twice, removal/update keep order, filtered queries/removals exact, false iff unchanged, key injectivity on comma-free rules. Tie: all histories of depth <=3 (quick) / <=4 (thorough) over a 16-op alphabet for p, p2 and g through the real Enforcer API with the exported PolicyMap observed after every call, plus seeded random histories over a hostile universe (outside WF06 only model = implementation is checked).",
     "C02": "Proved in Lean for every effect kind and every vector of any length: the streaming fill-merge-break loop of enforce() over the pre-sized arrays decides exactly as the four sentences of the property (stream_eq_spec), order-insensitivity of the three order-insensitive effects (spec_perm, stream_perm), first-determinate semantics of priority, truthfulness of the explanation index (explain_truthful), fail-closed on unknown expressions. The model is tied to the code by replaying all 6^n vectors (n<=5 quick, n<=7 thorough) x 5 effects through the real Enforce/EnforceEx/BatchEnforce and all direct MergeEffects calls on arrays up to length 3.",
